@@ -119,6 +119,45 @@ pub fn run(tier: &str, seed: u64, outdir: &str) {
         std::fs::write(format!("{}/gen{}.json", outdir, gens.len()), &j).unwrap();
         gens.push((j, tails));
     }
+    // a registry whose tails file has a SHA-256 digest that starts with a zero byte (its base58 name starts with '1'):
+    // searched over variants of the smallest generator (the last digits of its secret exponent rewritten)
+    {
+        use sha2::{Digest, Sha256};
+        let base: serde_json::Value = serde_json::from_str(&gens[0].0).unwrap();
+        if let Some(gamma) = base["gamma"].as_str() {
+            let tries: Vec<u32> = (0..(if thorough { 3000 } else { 1500 })).collect();
+            let found = crate::par::par_map(&tries, crate::par::ncpu(), |_, i| -> Option<(String, Vec<Vec<u8>>)> {
+                if gamma.len() < 8 || !gamma.is_char_boundary(gamma.len() - 4) {
+                    return None;
+                }
+                let upper = gamma.chars().any(|c| c.is_ascii_uppercase());
+                let tail = if upper { format!("{:04X}", i) } else { format!("{:04x}", i) };
+                let mut v = base.clone();
+                v["gamma"] = json!(format!("{}{}", &gamma[..gamma.len() - 4], tail));
+                let j = serde_json::to_string(&v).ok()?;
+                let tails = std::panic::catch_unwind(|| {
+                    let mut g: RevocationTailsGenerator = serde_json::from_str(&j).ok()?;
+                    let mut t = vec![];
+                    while let Ok(Some(x)) = g.try_next() {
+                        t.push(x.to_bytes().ok()?);
+                    }
+                    Some(t)
+                })
+                .ok()??;
+                let mut h = Sha256::new();
+                h.update([0u8, 2u8]);
+                for t in &tails {
+                    h.update(t);
+                }
+                if h.finalize()[0] == 0 { Some((j, tails)) } else { None }
+            });
+            for (j, tails) in found.into_iter().flatten().take(2) {
+                std::fs::write(format!("{}/gen{}.json", outdir, gens.len()), &j).unwrap();
+                gens.push((j, tails));
+                out.bump("generator:digest-with-leading-zero-byte");
+            }
+        }
+    }
     let exe = std::env::current_exe().unwrap();
 
     let mut jobs: Vec<Job> = vec![];
@@ -259,13 +298,26 @@ pub fn run(tier: &str, seed: u64, outdir: &str) {
             for a in 0..len {
                 let k: u64 = if q == 0 { a } else if r.chance(1, 4) { nt + r.below(3) } else if r.chance(1, 25) { u32::MAX as u64 - r.below(2) } else { r.below(nt) };
                 let mut got: Option<Vec<u8>> = None;
-                let res = reader.access_tail(k as u32, &mut |t| got = Some(t.to_bytes().unwrap()));
+                // every third sequence: a second tail is read from INSIDE the accessor of the first (pairs of tails)
+                let nested: Option<u64> = if q % 3 == 2 { Some(if r.chance(1, 5) { nt + r.below(2) } else { r.below(nt) }) } else { None };
+                let mut inner: Option<String> = None;
+                let res = reader.access_tail(k as u32, &mut |t| {
+                    got = Some(t.to_bytes().unwrap());
+                    if let Some(k2) = nested {
+                        let mut got2: Option<Vec<u8>> = None;
+                        let res2 = reader.access_tail(k2 as u32, &mut |t2| got2 = Some(t2.to_bytes().unwrap()));
+                        inner = Some(format!("({} {})", k2, match (&res2, &got2) { (Ok(()), Some(b)) => format!("({})", sx::b(b)), _ => "()".to_string() }));
+                    }
+                });
                 reads.push(format!("({} {})", k, match (&res, &got) { (Ok(()), Some(b)) => format!("({})", sx::b(b)), _ => "()".to_string() }));
+                if let Some(i) = inner {
+                    reads.push(i);
+                }
             }
             let id = out.next_id();
             let line = format!("(C19 {} R {} {})", id, sx::list(tails.iter(), |t| sx::b(t)), sx::l(&reads));
             let (ntl, nr) = (tails.len(), reads.len());
-            out.case(&line, "read-back", || json!({"kind": "read", "tails": ntl, "accesses": nr}));
+            out.case(&line, if q % 3 == 2 { "read-back:nested" } else { "read-back" }, || json!({"kind": "read", "tails": ntl, "accesses": nr}));
         }
         let _ = std::fs::remove_dir_all(&dir);
     }
